@@ -523,6 +523,11 @@ func init() {
 		}
 		sort.Slice(seeds, func(i, j int) bool { return seeds[i].Name < seeds[j].Name })
 		report := func(stream, muts string, src []byte, res *c8result) {
+			if strings.HasPrefix(res.class, "s:not-idempotent:") {
+				// a recorded finding class is matched by its class alone, wherever it shows
+				c.Violate("C08|"+res.class, fmt.Sprintf("%s (%s): %s\n--- input\n%s", res.class, stream, res.what, src), map[string]any{"src": string(src)})
+				return
+			}
 			c.Violate("C08|"+stream+"|"+muts+"|"+res.class, fmt.Sprintf("%s (%s): %s\n--- input\n%s", res.class, muts, res.what, src), map[string]any{"src": string(src), "mutations": muts})
 		}
 		mutate := func(r *rand.Rand, src []byte) ([]byte, string) {
@@ -612,6 +617,12 @@ func init() {
 				}()
 			}
 		})
+		// pinned witness of the recorded -s layout finding
+		if _, res := c8checkSimplify([]byte("f1: {e: {\"a\": string, ...}, ...}\n")); res != nil {
+			report("pinned", "witness", []byte("f1: {e: {\"a\": string, ...}, ...}\n"), res)
+		} else {
+			c.Count("pinned_s_layout_witness_now_clean", 1)
+		}
 		// (e) -s on programs in which quoted labels, identifiers and references of the same names meet:
 		//     tree oracle on all of them, evaluation of input and output (worker processes) on a sample
 		nlab := c.N(30000, 400000)
@@ -670,6 +681,20 @@ func init() {
 			b, fb := c01fromRes(resm[fmt.Sprintf("s%d-out", i)])
 			if fa != "ok" || fb != "ok" {
 				c.Count("simplify_semantic_skipped:"+fa+"/"+fb, 1)
+				continue
+			}
+			// only programs that evaluate without an error have a meaning that does not depend on how the
+			// evaluator reports errors below a struct; an output that has errors where the input has none is a change
+			hasErr := false
+			for _, m := range []map[string]string{a.raw, a.final} {
+				for _, v := range m {
+					if c01hasErr(v) {
+						hasErr = true
+					}
+				}
+			}
+			if hasErr || a.err != "" {
+				c.Count("simplify_semantic_skipped:input-has-errors", 1)
 				continue
 			}
 			c.Count("simplify_semantic_comparisons", 1)
